@@ -131,6 +131,12 @@ pub fn parse_swift_chars(input: &str, field_name: &str) -> Result<String, ParseE
 
 /// Parse BIC code (8 or 11 characters)
 pub fn parse_bic(input: &str) -> Result<String, ParseError> {
+    if !input.is_ascii() {
+        return Err(ParseError::InvalidFormat {
+            message: "BIC must contain only ASCII letters and digits".to_string(),
+        });
+    }
+
     if input.len() != 8 && input.len() != 11 {
         return Err(ParseError::InvalidFormat {
             message: format!("BIC must be 8 or 11 characters, found {}", input.len()),
